@@ -105,6 +105,8 @@ pub enum Fault {
     GarbageDisclosure { text: String, at: usize },
     StripKb,
     EmptyKb,
+    /// the KB slot holds arbitrary text (near-valid JWTs, wrong part counts, non-base64 …)
+    GarbageKb(String),
     /// the trailing `~` of a compact message was lost: the last disclosure sits in the KB slot
     LastDisclosureIntoKbSlot,
     ReplayKb { from: usize },
@@ -135,6 +137,7 @@ impl Fault {
             Fault::ForeignDisclosure { .. } => "foreign_disclosure",
             Fault::GarbageDisclosure { .. } => "garbage_disclosure",
             Fault::StripKb => "strip_kb",
+            Fault::GarbageKb(_) => "garbage_kb",
             Fault::LastDisclosureIntoKbSlot => "lost_trailing_separator",
             Fault::EmptyKb => "empty_kb",
             Fault::ReplayKb { .. } => "replay_kb",
@@ -582,6 +585,7 @@ pub fn apply(f: &Fault, m: &mut Message, tokens: &[Message], w: &mut World, now:
             m.disclosures.insert(at, text.clone());
         }
         Fault::StripKb => m.kb = None,
+        Fault::GarbageKb(t) => m.kb = Some(t.clone()),
         Fault::LastDisclosureIntoKbSlot => {
             if m.kb.is_none() {
                 if let Some(d) = m.disclosures.pop() {
